@@ -123,6 +123,7 @@ func runC15(c *Ctx) {
 	ruleSecretFiles(c, "R15.3")
 	ruleNoFileQuotingErrors(c, "R15.4")
 	ruleShareDatabaseCopiesOwnerOnly(c, "R15.5")
+	ruleWideModesOnlyOnDirectories(c, "R15.6")
 }
 
 func ruleSecretTypesAtSinks(c *Ctx, rule string) {
